@@ -30,9 +30,9 @@ STRENGTHENED = {
     "C11_5": "optimum, copy, optimum in the other signedness", "C13_5": "annotated and bare duplicate in one batch with a pinning equality", "C14_5": "a disturbance step run in a worker thread", "C14_6": "bystander of a merge of relatives",
     "C21_5": "values derived from an operand compared with it", "C21_6": "word-width ranges wrapping around zero against small constants", "C22_6": "union/widen written as expressions, with a reversed copy of the same value", "C25_6": "masks ending below, at and above the extended value",
     "C06_6": "annotation class with per-instance flags", "C06_7": "plain Python floats as operands, earlier expressions kept alive", "C12_6": "bystander of a merge of relatives", "C13_6": "approximate half of the parts of a split hybrid", "C22_5": "operand unchanged after the operation",
-    "C16_6": "cores of solvers derived from a solver already found contradictory (split, merge, blank_copy, combine)", "C18_5": "replacement store changed after the round trip, look-up cache filled before it",
+    "C16_6": "cores of solvers derived from a solver already found contradictory (split, merge, blank_copy, combine)", "C18_5": "replacement store changed after the round trip, look-up cache filled before it", "C07_5": "top annotations edited after construction, then simplify",
 }
-CROSS_ONLY = {"C06_2": "C18", "C13_4": "C15", "C02_3": "C26", "C06_6": "C07", "C06_7": "C02", "C12_6": "C14", "C13_6": "C15", "C22_5": "C21"}
+CROSS_ONLY = {"C06_2": "C18", "C13_4": "C15", "C02_3": "C26", "C06_6": "C07", "C06_7": "C02", "C12_6": "C14", "C13_6": "C15", "C22_5": "C21", "C10_5": "C02"}
 
 
 def main(files):
